@@ -115,7 +115,9 @@ def check(prop, modname, tier, seed):
                                      'note': 'Level-A obligation (pyvc) of this property failed; no failing input was searched for'})
             rep.violation(n, path, False)
         for u in la['unsupported']:
-            rep.undecided.append('Level-A part outside the supported subset: ' + u)
+            # the bounded part decides this property: a function that left the subset pyvc translates only loses
+            # its Level-A obligations (they are not counted); it is neither a violation nor an undecided verdict
+            print('NOTE: Level-A part not obtained (source outside the supported subset): %s' % u[:240])
     ev = {'property_id': prop, 'tier': tier, 'seed': seed, 'level': getattr(mod, 'LEVEL', 'exploration'),
           'coverage': {'evaluations': evals, 'distinct_nontrivial': distinct, 'rule': mod.RULE, 'samples': samples,
                        'exhaustive': True, 'scope': mod.SCOPE[tier], 'functions_under_contract': mod.CONTRACTS,
@@ -131,6 +133,7 @@ def check(prop, modname, tier, seed):
                                                'stand-in under a time budget: "confirmed over all paths" is recorded but never counted as proved')
     if la is not None:
         ev['coverage'].update({'obligations': la['obligations'], 'discharged': la['discharged'],
+                               'level_a_not_obtained': la['unsupported'],
                                'level_a_functions_under_contract': la['functions'], 'solver_ms_total': la['ms'],
                                'trusted_base': common.TRUSTED_BASE_A,
                                'level_a_note': 'the obligations counted here are the Level-A (pyvc + z3) part of this property; the '
